@@ -144,8 +144,17 @@ func forwarded(u *ssa.UnOp) ssa.Value {
 		}
 		return nil
 	case *ssa.FieldAddr:
-		al, ok := a.X.(*ssa.Alloc)
-		if !ok {
+		var al ssa.Value
+		switch b := a.X.(type) {
+		case *ssa.Alloc:
+			al = b
+		case *ssa.Call:
+			// an object freshly built by a module constructor is as private as a local literal
+			if freshObjectCall(b) {
+				al = b
+			}
+		}
+		if al == nil || al.Referrers() == nil {
 			return nil
 		}
 		escapes := false
@@ -207,6 +216,25 @@ func forwarded(u *ssa.UnOp) ssa.Value {
 		return st.Val
 	}
 	return nil
+}
+
+// freshObjectCall: a call to a module function every return of which yields an object allocated in that function.
+func freshObjectCall(c *ssa.Call) bool {
+	sc := c.Call.StaticCallee()
+	if sc == nil || len(sc.Blocks) == 0 || sc.Pkg == nil || !strings.HasPrefix(sc.Pkg.Pkg.Path(), modPath) || c.Call.Signature().Results().Len() != 1 {
+		return false
+	}
+	n := 0
+	for _, r := range returnsOf(sc) {
+		if len(r.Results) != 1 {
+			return false
+		}
+		if _, ok := retval(r, 0).(*ssa.Alloc); !ok {
+			return false
+		}
+		n++
+	}
+	return n > 0
 }
 
 // wholeStructForward: load of field f of a local struct variable that is assigned exactly once, as a whole, by a store
@@ -1392,6 +1420,18 @@ func (e *Env) lenOf(x ssa.Value) LE {
 		}
 	case *ssa.MakeSlice:
 		return e.LE(v.Len)
+	case *ssa.Call:
+		if v.Call.Signature().Results().Len() == 1 {
+			if l, ok := e.mappedLen(v, 0); ok {
+				return l
+			}
+		}
+	case *ssa.Extract:
+		if call, ok := v.Tuple.(*ssa.Call); ok {
+			if l, ok := e.mappedLen(call, v.Index); ok {
+				return l
+			}
+		}
 	case *ssa.Slice:
 		if pt, ok := v.X.Type().Underlying().(*types.Pointer); ok {
 			if at, ok := pt.Elem().Underlying().(*types.Array); ok {
@@ -1447,6 +1487,125 @@ func (e *Env) lenOf(x ssa.Value) LE {
 		}
 	}
 	return leAtom("len(" + e.Term(x) + ")")
+}
+
+// mappedLen: the length of a slice returned by a module helper that builds it by appending exactly one element per element
+// of a parameter slice, from index 0 (`for i := 0; i < len(xs); i++ { …; out = append(out, y) }; return out, nil`):
+// on its successful returns len(result) == len(xs).
+func (e *Env) mappedLen(call *ssa.Call, idx int) (LE, bool) {
+	sc := call.Call.StaticCallee()
+	if sc == nil || len(sc.Blocks) == 0 || sc.Pkg == nil || !strings.HasPrefix(sc.Pkg.Pkg.Path(), modPath) || e.depth >= 4 {
+		return LE{}, false
+	}
+	var acc *ssa.Phi
+	for _, r := range returnsOf(sc) {
+		if lastIsError(sc) && !isSuccessReturn(r) {
+			continue
+		}
+		if idx >= len(r.Results) {
+			return LE{}, false
+		}
+		ph, ok := retval(r, idx).(*ssa.Phi)
+		if !ok || acc != nil && ph != acc {
+			return LE{}, false
+		}
+		acc = ph
+	}
+	if acc == nil || len(acc.Edges) != 2 {
+		return LE{}, false
+	}
+	// accumulator: [empty, append(acc, one element)]
+	emptyInit := func(v ssa.Value) bool {
+		if isNilConst(v) {
+			return true
+		}
+		if ms, ok := v.(*ssa.MakeSlice); ok {
+			k, ok := constInt(ms.Len)
+			return ok && k == 0
+		}
+		if sl, ok := v.(*ssa.Slice); ok {
+			if k, ok := constInt(sl.High); ok && k == 0 {
+				return true
+			}
+		}
+		return false
+	}
+	oneAppend := func(v ssa.Value) bool {
+		c, ok := v.(*ssa.Call)
+		if !ok {
+			return false
+		}
+		b, ok := c.Call.Value.(*ssa.Builtin)
+		if !ok || b.Name() != "append" || c.Call.Args[0] != ssa.Value(acc) {
+			return false
+		}
+		sl, ok := c.Call.Args[1].(*ssa.Slice)
+		if !ok {
+			return false
+		}
+		al, ok := sl.X.(*ssa.Alloc)
+		if !ok {
+			return false
+		}
+		at, ok := al.Type().(*types.Pointer).Elem().Underlying().(*types.Array)
+		return ok && at.Len() == 1
+	}
+	if !(emptyInit(acc.Edges[0]) && oneAppend(acc.Edges[1]) || emptyInit(acc.Edges[1]) && oneAppend(acc.Edges[0])) {
+		return LE{}, false
+	}
+	// counter in the same header: [0, i + 1], loop continues while i < len(param)
+	hdr := acc.Block()
+	iff, ok := hdr.Instrs[len(hdr.Instrs)-1].(*ssa.If)
+	if !ok {
+		return LE{}, false
+	}
+	cmp, ok := iff.Cond.(*ssa.BinOp)
+	if !ok || cmp.Op != token.LSS {
+		return LE{}, false
+	}
+	ctr, ok := cmp.X.(*ssa.Phi)
+	if !ok || ctr.Block() != hdr || len(ctr.Edges) != 2 {
+		return LE{}, false
+	}
+	zeroStart, stepOne := false, false
+	for _, ed := range ctr.Edges {
+		if k, ok := constInt(ed); ok && k == 0 {
+			zeroStart = true
+		} else if par, ok := ed.(*ssa.Parameter); ok {
+			// a start index handed in: only the constant 0 at this call site
+			for pi, q := range sc.Params {
+				if q == par && pi < len(call.Call.Args) {
+					if k, ok := constInt(call.Call.Args[pi]); ok && k == 0 {
+						zeroStart = true
+					}
+				}
+			}
+		} else if bo, ok := ed.(*ssa.BinOp); ok && bo.Op == token.ADD && bo.X == ssa.Value(ctr) {
+			if k, ok := constInt(bo.Y); ok && k == 1 {
+				stepOne = true
+			}
+		}
+	}
+	if !zeroStart || !stepOne {
+		return LE{}, false
+	}
+	lc, ok := cmp.Y.(*ssa.Call)
+	if !ok {
+		return LE{}, false
+	}
+	if b, ok := lc.Call.Value.(*ssa.Builtin); !ok || b.Name() != "len" {
+		return LE{}, false
+	}
+	par, ok := lc.Call.Args[0].(*ssa.Parameter)
+	if !ok {
+		return LE{}, false
+	}
+	for pi, q := range sc.Params {
+		if q == par && pi < len(call.Call.Args) {
+			return e.lenOf(call.Call.Args[pi]), true
+		}
+	}
+	return LE{}, false
 }
 
 // globalLen: length of a package-level slice that is stored exactly once (in the package initialiser) with a value of
@@ -3026,6 +3185,28 @@ func (e *Env) phiFacts() []Fact {
 			}
 			if okAll && init != nil {
 				out = append(out, Fact{Lin: true, LE: e.LE(ph).minus(e.LE(init)), Why: "loop induction: " + ph.Name() + " >= initial value"})
+			}
+			// a φ of constants lies between the smallest and the largest of them
+			{
+				allK := len(ph.Edges) > 0
+				var lo, hi int64
+				for i, ed := range ph.Edges {
+					k, ok := constInt(ed)
+					if !ok {
+						allK = false
+						break
+					}
+					if i == 0 || k < lo {
+						lo = k
+					}
+					if i == 0 || k > hi {
+						hi = k
+					}
+				}
+				if allK {
+					out = append(out, Fact{Lin: true, LE: e.LE(ph).addK(-lo), Why: "φ of constants: " + ph.Name() + " >= " + fmt.Sprint(lo)},
+						Fact{Lin: true, LE: e.LE(ph).scale(-1).addK(hi), Why: "φ of constants: " + ph.Name() + " <= " + fmt.Sprint(hi)})
+				}
 			}
 			// descending counters: φ = [init, φ - c] with c >= 0 gives φ <= init
 			init, okAll = nil, true
